@@ -14,6 +14,7 @@ NEUTRALS = [{'name': 'guard with nested if already present: rename default var',
 
 # changes made by sub-agents that were given only the property text (see /verif/seeded/<id>/): each must stay reported
 SEEDED = [
+    {'name': 'seeded change C10-r5b', 'seed': 'C10-r5b', 'expect': '|SIB-backfill|'},
     {'name': 'seeded change C10-r4b', 'seed': 'C10-r4b', 'expect': '|F3-codes|'},
     {'name': 'seeded change C10-r4a', 'seed': 'C10-r4a', 'expect': '|F4a|'},
     {'name': 'seeded change C10-r3', 'seed': 'C10-r3', 'expect': '|RESCALE|'},
